@@ -295,6 +295,9 @@ def main():
     if not a.no_evidence:
         os.makedirs(os.path.join(VERIF, "evidence"), exist_ok=True)
         json.dump(ev, open(os.path.join(VERIF, "evidence", prop + ".json"), "w"), indent=1)
+        # the same record per tier, so that a quick run does not wipe out what the last thorough run covered
+        os.makedirs(os.path.join(VERIF, "evidence", tier), exist_ok=True)
+        json.dump(ev, open(os.path.join(VERIF, "evidence", tier, prop + ".json"), "w"), indent=1)
     print("SUMMARY property=%s runs=%d nontrivial_distinct=%d violations=%d known=%d out_of_scope=%d states=%d edges=%d/%d wall=%.1fs runs/h=%d" % (
         prop, agg["runs"], len(agg["nontrivial_hashes"]), len(new_viol), len(known_hits), len(agg["oos"]), len(agg["states"]), cov_hit, cov_total, wall, ev["coverage"]["runs_per_hour"]))
     if new_viol:
